@@ -72,3 +72,17 @@ func TestDeletedBucketSettingsAreGoneWithSidecarMetadata(t *testing.T) {
 		t.Errorf("the new bucket has the policy of the deleted one: %s", pol)
 	}
 }
+
+// The S3 naming rules reserve some prefixes and suffixes; names using them were accepted.
+func TestReservedBucketNameFormsRefused(t *testing.T) {
+	for _, n := range []string{"xn--abc", "sthree-abc", "sthree-configurator", "amzn-s3-demo-abc", "abc-s3alias", "abc--ol-s3", "abc.mrap", "abc--x-s3", "abc--table-s3"} {
+		if utils.IsValidBucketName(n, false) {
+			t.Errorf("bucket name %q is accepted", n)
+		}
+	}
+	for _, n := range []string{"xn-abc", "sthreeabc", "abc-s3", "my-bucket.mrap.x", "s3alias-abc"} {
+		if !utils.IsValidBucketName(n, false) {
+			t.Errorf("bucket name %q is refused", n)
+		}
+	}
+}
